@@ -260,7 +260,9 @@ M_C09(pre, a, obs, post) ==
     UNION {
       LET u == uu  r0 == pre.subs[t][u]  r1 == post.subs[t][u] IN
       If(r0.st = "live" /\ r1.st = "live" => r1.read >= r0.read /\ r1.recv >= r0.recv, "StoredMarksNeverDecrease")
-      \cup If(pre.cache[t].loaded /\ post.cache[t].loaded /\ pre.cache[t].per[u].in /\ post.cache[t].per[u].in =>
+      \* (a p2p participant who unsubscribed stays cached, flagged deleted; subscribing again is a NEW subscription: marks start at 0)
+      \cup If(pre.cache[t].loaded /\ post.cache[t].loaded /\ pre.cache[t].per[u].in /\ post.cache[t].per[u].in
+              /\ ~pre.cache[t].per[u].deleted /\ ~post.cache[t].per[u].deleted =>
                  post.cache[t].per[u].read >= pre.cache[t].per[u].read /\ post.cache[t].per[u].recv >= pre.cache[t].per[u].recv, "LiveMarksNeverDecrease")
       \cup If(r0.st = "live" /\ r1.st = "live" /\ (r1.read # r0.read \/ r1.recv # r0.recv) =>
                  Actor(a) = u /\ IsReq(a) /\ a.t = t /\ (a.a = "Pub" \/ (a.a = "Note" /\ "R" \in Eff(r0))), "MarkMovesOnlyByOwnPublishOrNote")
